@@ -3,6 +3,7 @@ EXTENDS Sync
 \* device root "top"; node A below it (edge eA), node B below A (edge eB)
 MCEdges == {"eA", "eB"}
 MCParent == [e \in MCEdges |-> IF e = "eA" THEN "top" ELSE "eA"]
-MCIdents == {[e |-> "eA", k |-> "pt"], [e |-> "eA", k |-> "tomb"], [e |-> "eB", k |-> "pt"], [e |-> "eB", k |-> "tomb"]}
+\* per placement: two node points, one edge point, the tombstone
+MCIdents == {[e |-> x, k |-> y] : x \in MCEdges, y \in {"pt", "pt2", "ept", "tomb"}}
 
 =============================================================================
